@@ -167,6 +167,13 @@ class Ctx:
                            obligations=[dict(name=n, note=str(note)[:2000]) for n, note in undischarged]),
                       no_input=True)
         cov = self.cov
+        # keep the evidence inside EVIDENCE.schema.json whatever a property module put there
+        if "exhaustive" in cov and not isinstance(cov["exhaustive"], bool):
+            cov["exhaustive_bound"] = str(cov["exhaustive"])
+            cov["exhaustive"] = True
+        for k in ("evaluations", "distinct_nontrivial", "traces_validated_against_impl", "states", "transitions"):
+            if k in cov and not isinstance(cov[k], int):
+                cov[k] = int(cov[k])
         cov["obligations"] = len(self.obl)
         cov["discharged"] = sum(1 for o in self.obl if o[1])
         cov["obligation_list"] = [dict(name=n, discharged=ok, assumptions=note) for n, ok, note in self.obl]
